@@ -397,3 +397,10 @@ package schema
 //@             len(builder.Definitions.ProcessField) == 0 && cap(builder.Definitions.ProcessField) == 0 &&
 //@             len(builder.Definitions.CollaborationField) == 0 && cap(builder.Definitions.CollaborationField) == 0 &&
 //@             builder.Definitions.DiagramField == nil
+
+// Looking an element up by a predicate is one Call event carrying the element searched (so that a caller's contract
+// can say how many lookups it made); which element is found is not specified here.
+//@ func Element.FindBy
+//@   assumed
+//@   modifies nothing
+//@   emits Call(code("schema|Element.FindBy"), this)
